@@ -591,7 +591,7 @@ def run(ctx):
         ctx.case(("scenario", name, tuple(params)), states > 1, {"scenario": name, "params": params, "rc": rc, "states": states})
         if rc == 124:
             ctx.fail("hang-" + name, "simgrid-mc does not finish on scenario '%s %s' within %ds: %s" % (name, params, 3 * MC_TIMEOUT, out[-300:]), case)
-        elif rc != 0 and "std::out_of_range" in out and "dispatch_depends" in out and name.startswith("testany"):
+        elif rc != 0 and "std::out_of_range" in out and "_M_range_check" in out and name.startswith("testany"):   # (frame names vary with inlining)
             ctx.fail("testany-none-outcome-crashes-checker",
                      "simgrid-mc aborts with an uncaught std::out_of_range in Transition::dispatch_depends on scenario '%s %s': "
                      "TestAnyTransition::get_current_transition() indexes its sub-transitions with times_considered, whose last value "
